@@ -403,7 +403,7 @@ Section Calc.
           (map (fun v =>
                   let p := field_names tbl snake (vd_name v) in
                   let quals := quals_sdl (vd_type v) in
-                  let tyname := kw (norm o (gname (vd_type v))) in
+                  let tyname := kw (norm_field_type o (gname (vd_type v))) in
                   mkField (fst p)
                           (match decorate tyname quals with Some t => t | None => RNamed "<double required>" end)
                           (snd p) false
